@@ -57,6 +57,9 @@ def run(ctx: Ctx, env):
     orm = [v for v in H.visitors() if "django" in v or "sqlalchemy" in v]
     ctx.floor("ORM visitors", len(orm), 3)
     _annotation_names(ctx, env)  # syntactic; first, so that it is decided even when the evaluation below cannot finish
+    # the package's own Django lookup compiles to SQL text + parameters: every operand's parameters must stay parameters
+    from .c02 import check_notequal_lookup
+    check_notequal_lookup(ctx, env, "R1.custom-lookup-keeps-parameters")
     for vcls in orm:
         vs = H.short(vcls)
         n_flows = 0
